@@ -197,6 +197,27 @@ theorem front_project (k : Nat) (rows : List Vec) :
 theorem front_parts (L : List (List Vec)) : front ((L.map front).flatten) = front L.flatten :=
   (AFV.Front.front_flatten_fronts L).symm
 
+/-! ### Non-vacuity: two rank variables of bound 2, an input indexed by both and an output indexed by the first, on a
+main memory and a 24-bit buffer: 38 mappings, 36 fit, the (energy, latency) front has two points. -/
+
+def exLevel (sz e thr : Rat) : Level Rat :=
+  { (Level.dflt : Level Rat) with size := sz, read := { energy := e, throughput := thr }, write := { energy := e, throughput := thr } }
+
+def exSpec : SpecDesc :=
+  { arch := { levels := [exLevel 1 10 4, exLevel 24 1 1],
+              compute := { energy := 1, throughput := 8, leak := 0, actionsScale := 1, skipInitial := true } }
+    bounds := [2, 2]
+    tensors := [{ rvs := [0, 1], isOutput := false, bpv := 8 }, { rvs := [0], isOutput := true, bpv := 8 }]
+    nInstances := 1
+    rules := [{ keep := [0, 1], mayKeep := [] }, { keep := [], mayKeep := [0, 1] }]
+    infSize := [true, false]
+    forceOrder := true }
+
+example : refFront ⟨true, true, false⟩ 8 exSpec = some [[4384, 512], [6432, 160]] := by decide +kernel
+example : refFront ⟨true, true, true⟩ 24 exSpec = some [[13152, 1536, 0, 8], [19296, 480, 0, 0]] := by decide +kernel
+-- a scale that does not clear the denominators is refused, nothing is rounded
+example : refFront ⟨true, true, true⟩ 1 exSpec = none := by decide +kernel
+
 end Mapspace
 
 end AFV.C02
